@@ -258,7 +258,7 @@ pub fn run(ctx: &Ctx) -> Outcome {
     let mut nontrivial = 0u64;
     let mut samples = vec![];
     let mut parts = vec![];
-    let plan: Vec<(usize, usize)> = if thorough { vec![(1, 3), (2, 3), (3, 3), (4, 3)] } else { vec![(1, 3), (2, 3), (3, 3), (4, 2)] };
+    let plan: Vec<(usize, usize)> = if thorough { vec![(1, 3), (2, 3), (3, 3), (4, 3), (5, 2)] } else { vec![(1, 3), (2, 3), (3, 3), (4, 3)] };
     for (n, npeers) in plan {
         let (e, t, s) = exhaustive(ctx, n, npeers);
         parts.push(json!({"pieces": n, "peers": npeers, "evaluations": e, "with_a_real_tie": t}));
